@@ -38,8 +38,11 @@ def duration_stream(rng, n, kind):
 KINDS = ["dyadic", "dyadic", "equal", "tiny", "huge", "tinyhuge", "small"]
 
 
-def timetable_checks(specs, durs, starts, perm, scope, tol=0.0):
-    """the five clauses of C11 on start times returned by the real code -> None or a description"""
+def timetable_checks(specs, durs, starts, perm, scope, tol=0.0, cycles=None):
+    """the five clauses of C11 on start times returned by the real code -> None or a description.
+    scope "covered": the overlap clause is evaluated for every qubit-sharing pair that commutation_rules does not
+    declare commuting (no_overlap_pair_partial) and for every pair placed in the same cycle (no_overlap_same_cycle);
+    pairs declared commuting that sit in different cycles are the class of the known finding."""
     _, Instruction, Scheduler, _, _ = sc._mods()
     n = len(specs)
     if len(starts) != n:
@@ -51,26 +54,28 @@ def timetable_checks(specs, durs, starts, perm, scope, tol=0.0):
     used = [sc.used_of(s) for s in specs]
     ins = [Instruction(gate_obj(s)) for s in specs]
     sch = Scheduler("ASAP")
-    commuting = set()
+    where = {}
+    for ci, c in enumerate(cycles or []):
+        for i in c:
+            where[i] = ci
+    skipped = 0
     for i in range(n):
         for j in range(i + 1, n):
-            if used[i] & used[j]:
-                if perm and sch.commutation_rules(j, i, ins):
-                    commuting.add((i, j))
-                elif starts[j] < starts[i] + durs[i] - tol:
-                    return (f"instruction {j} starts at {starts[j]} before the earlier non-commuting instruction {i} "
-                            f"(start {starts[i]}, duration {durs[i]}) has finished")
-    if max(s + d for s, d in zip(starts, durs)) > sum(durs) + tol:
-        return f"makespan {max(s + d for s, d in zip(starts, durs))} exceeds sequential duration {sum(durs)}"
-    if scope == "covered" and commuting:
-        # no_overlap_partial covers exactly the lists without a qubit-sharing pair that commutation_rules
-        # declares commuting; the complement is the class of the known finding
-        return None
-    for i in range(n):
-        for j in range(i + 1, n):
-            if used[i] & used[j] and starts[i] < starts[j] + durs[j] - tol and starts[j] < starts[i] + durs[i] - tol:
+            if not (used[i] & used[j]):
+                continue
+            commuting = bool(perm and sch.commutation_rules(j, i, ins))
+            if not commuting and starts[j] < starts[i] + durs[i] - tol:
+                return (f"instruction {j} starts at {starts[j]} before the earlier non-commuting instruction {i} "
+                        f"(start {starts[i]}, duration {durs[i]}) has finished")
+            same_cycle = i in where and where.get(i) == where.get(j)
+            if scope == "covered" and commuting and not same_cycle:
+                skipped += 1
+                continue
+            if starts[i] < starts[j] + durs[j] - tol and starts[j] < starts[i] + durs[i] - tol:
                 return (f"instructions {i} and {j} share qubit(s) {sorted(used[i] & used[j])} and overlap: "
                         f"[{starts[i]}, {starts[i] + durs[i]}) and [{starts[j]}, {starts[j] + durs[j]})")
+    if max(s + d for s, d in zip(starts, durs)) > sum(durs) + tol:
+        return f"makespan {max(s + d for s, d in zip(starts, durs))} exceeds sequential duration {sum(durs)}"
     return None
 
 
@@ -86,14 +91,25 @@ class C11(PropertyCheck):
         "QipVerif.C11.min_start_zero",
         "QipVerif.C11.dep_respected",
         "QipVerif.C11.makespan_le_sum",
+        "QipVerif.C11.no_overlap_pair_partial",
+        "QipVerif.C11.no_overlap_same_cycle",
         "QipVerif.C11.no_overlap_partial",
         "QipVerif.C11.no_overlap_without_permutation",
         "QipVerif.C11.C11_counterexample_starts",
         "QipVerif.C11.C11_counterexample_overlap",
         "QipVerif.C11.C11_counterexample_no_overlap",
     ]
-    level_text = ""
-    level_note = ""
+    level_text = ("Lean 4 theorems about the model of the pulse scheduler, for every list of timed instructions with non-negative "
+                  "(in particular positive) durations, ASAP and ALAP, permutation allowed or not, and every permutation-valued "
+                  "re-ordering oracle: start times are non-negative, the earliest is 0, an instruction starts only after every "
+                  "earlier qubit-sharing instruction it is not declared to commute with has finished (longest-path inequality), and "
+                  "no instruction finishes later than the sum of all durations. The no-overlap clause is stated in full and refuted "
+                  "(Lean counter-example [CNOT(0->1) d=10, SNOT(2) d=1, CNOT(0->2) d=1], ASAP => starts [0,0,1], reproduced on the code, "
+                  "known finding); it is proved under the explicit hypothesis that no qubit-sharing pair is declared commuting "
+                  "(always true with allow_permutation=False). The model is tied to the code by an exact comparison of start times "
+                  "(dyadic durations incl. equal / 2^-20 / 2^20) and cycles, exhaustive for short lists over a small alphabet with two durations.")
+    level_note = ("Four clauses proved, the fifth refuted and proved in its partial form. Trusted: Lean kernel; the harness; exactness of "
+                  "float arithmetic on the generated dyadic durations; stability of Python's list.sort.")
     technique = ("Lean 4 proof (longest-path recurrence along a proved topological order, for an arbitrary re-ordering "
                  "oracle) + model/implementation correspondence with exact start times")
     trusted_base = [
@@ -213,12 +229,16 @@ class C11(PropertyCheck):
         st, starts = sc.impl_schedule(ins, method, perm, log, random_shuffle=log is not None)
         if st != "ok":
             return True, f"schedule raised: {st}"
+        log2 = sc.ShuffleLog(replay=log.log) if log is not None else None
+        st2, cycles = sc.impl_schedule(ins, method, perm, log2, return_cycles_list=True, random_shuffle=log is not None)
+        if st2 != "ok":
+            return True, f"schedule(return_cycles_list=True) raised: {st2}"
         bad = timetable_checks(specs, durs, [float(x) for x in starts], perm, w.get("scope", "full"),
-                               tol=w.get("tol", 0.0))
+                               tol=w.get("tol", 0.0), cycles=cycles)
         if bad:
             return True, bad
         return False, f"starts {list(starts)}: valid timetable" + (
-            " (overlap clause evaluated only without rule-commuting qubit-sharing pairs)" if w.get("scope") == "covered" else "")
+            " (overlap clause not evaluated for pairs declared commuting that sit in different cycles)" if w.get("scope") == "covered" else "")
 
     def _random_witness(self, rng, floats=False):
         N = rng.choice([2, 3, 4, 5])
@@ -262,9 +282,9 @@ class C11(PropertyCheck):
                 yield w, d
 
     def oracle_always(self, ctx):
-        # restricted to the class the theorems cover (scope "covered"): the overlap clause is evaluated only for
-        # lists without a qubit-sharing pair that commutation_rules declares commuting (no_overlap_partial);
-        # the other four clauses are evaluated for every list.
+        # restricted to the class the theorems cover (scope "covered"): the overlap clause is evaluated for every pair
+        # that commutation_rules does not declare commuting and for every pair inside one cycle
+        # (no_overlap_pair_partial, no_overlap_same_cycle); the other four clauses are evaluated for every list.
         for k in range(300):
             w = self._random_witness(ctx.rng, floats=(k % 3 == 0))
             f, d = self.oracle_replay(ctx, w)
